@@ -168,7 +168,10 @@ pub fn one_case(d: Drv, kind: TKind, offered_in: u64, want_sample: bool) -> Case
         evlog::take();
         dev.borrow_mut().observe();
         let mut ops = vec![];
-        let r = catch_unwind(AssertUnwindSafe(|| drivers::use_briefly(&mut built, &mut ops)));
+        let r = catch_unwind(AssertUnwindSafe(|| {
+            drivers::use_briefly(&mut built, &mut ops)?;
+            drivers::exercise_stocked(&mut built, &dev, &mut ops, neg)
+        }));
         let ulog = evlog::take();
         match r {
             Err(_) => {
@@ -195,7 +198,7 @@ pub fn one_case(d: Drv, kind: TKind, offered_in: u64, want_sample: bool) -> Case
             if neg & devsim::F_EVENT_IDX != 0 && af != 0 {
                 out.viol.push(DViol { prop: "C08", rule: "avail_flags_written_with_event_idx", detail: format!("queue {}: avail.flags = {} although RING_EVENT_IDX was negotiated {}", qi, af, desc) });
             }
-            if neg & devsim::F_EVENT_IDX != 0 && q.completed > 0 && ue == 0 && !d.stocked_queues().contains(qi) {
+            if neg & devsim::F_EVENT_IDX != 0 && q.completed > 0 && ue == 0 {
                 out.viol.push(DViol { prop: "C08", rule: "event_idx_negotiated_but_not_used", detail: format!("queue {}: {} completions consumed but used_event still 0 with RING_EVENT_IDX negotiated {}", qi, q.completed, desc) });
             }
         }
